@@ -1391,8 +1391,8 @@ class World(object):
         fmt = (o.signed, o.n_word, o.n_frac)
         srcd = op['src']
         if 'slot' in srcd:
-            src = self.ref(srcd['slot'])
-            if src == d:
+            src = d if srcd.get('self') else self.ref(srcd['slot'])
+            if src == d and not srcd.get('self'):
                 raise Skip('self')
             st.srcs = [src]
             st.store = Store('dest', src=src, route='equal', modes_from=('slot', d), fmt_req=fmt)
@@ -1410,9 +1410,11 @@ class World(object):
     def op_set_from(self, st):
         op = st.op
         d = self.ref(op['slot'])
-        src = self.ref(op['src'])
-        if src == d:
+        src = d if op.get('self') else self.ref(op['src'])      # 'self': x(x), the object is its own source
+        if src == d and not op.get('self'):
             raise Skip('self')
+        if src == d:
+            self.bump('self_conversion')
         self._plan_inplace(st, d)
         o = self.obj(d)
         fmt = (o.signed, o.n_word, o.n_frac)
@@ -1430,9 +1432,11 @@ class World(object):
     def op_setitem_from(self, st):
         op = st.op
         d = self.ref(op['slot'], lambda o: np.asarray(o.val).ndim > 0)
-        src = self.ref(op['src'])
-        if src == d:
+        src = d if (op.get('self') and op.get('sindex') is not None) else self.ref(op['src'])
+        if src == d and not op.get('self'):
             raise Skip('self')
+        if src == d:
+            self.bump('self_conversion')        # x[i] = x[j]
         index = decode_index(op['index'])
         sindex = op.get('sindex')
         if sindex is not None:
